@@ -328,7 +328,68 @@ def tablesObs : String :=
 
 def dedup (l : List String) : List String := l.foldl (fun acc x => if acc.contains x then acc else acc ++ [x]) []
 
+/-! ### two lexers over one text (case `2;<hex>`): file mode, then line mode, ONE interning table
+
+"Equal tokens are represented by one shared object" is a statement about the process, not about one
+lexer: the pointer identities are numbered by first appearance over BOTH runs, and the same
+`(type, literal)` ⇔ same pointer check runs over the concatenation. -/
+
+def recsOf (l : List (State × Tok × State)) (ids : List Nat) : List Rec :=
+  (l.zip ids).map fun (e, id) =>
+    { type := if e.2.1.src == .nil then none else some e.2.1.type, lit := e.2.1.lit,
+      posBefore := e.1.pos, posAfter := e.2.2.pos, ws := e.2.2.hadWhitespace, nl := e.2.2.hadNewline,
+      ptr := id, lastNL := e.2.2.lastNewLine, lineNo := e.2.2.lineNumber : Rec }
+
+def renderTwo (r1 r2 : List Rec) (line : Bytes) (col no : Nat) : String :=
+  ",".intercalate (r1.map Rec.render) ++ "+" ++ ",".intercalate (r2.map Rec.render) ++ s!";{hexOrDash line}:{col}:{no}"
+
+def modelTwo (input : Array UInt8) : Option (List Rec × List Rec × String) :=
+  let l1 := lexAll false input
+  let l2 := lexAll true input
+  if (l1 ++ l2).any (fun e => e.2.1.src == .panic) then none else
+  let ids := numberPtrs (resolveAll initTable ((l1 ++ l2).map (·.2.1)))
+  let r1 := recsOf l1 (ids.take l1.length)
+  let r2 := recsOf l2 (ids.drop l1.length)
+  let last := match l2.getLast? with | some e => e.2.2 | none => State.new input true
+  match currentLine last with
+  | (some line, col, no) => some (r1, r2, renderTwo r1 r2 line col no)
+  | (none, _, _) => none
+
+def statementTwo (input : Array UInt8) (r1 r2 : List Rec) : Bool :=
+  statement false input r1 && statement true input r2 && checkIntern (r1 ++ r2) []
+
+def parseTwo (obs : String) : Option (List Rec × List Rec) :=
+  match splitOn obs ';' with
+  | [recs, _] =>
+    match recs.splitOn "+" with
+    | [a, b] => do
+      let r1 ← (splitOn a ',').mapM parseRec
+      let r2 ← (splitOn b ',').mapM parseRec
+      pure (r1, r2)
+    | _ => none
+  | _ => none
+
+def runCaseTwo (hex obs : String) : CaseResult :=
+  match bytesOfHex hex with
+  | none => CaseResult.badLine
+  | some b =>
+    let input := b.toArray
+    let mo := modelTwo input
+    let mr := match mo with | some (_, _, s) => s | none => "PANIC"
+    let sm := match mo with | some (r1, r2, _) => statementTwo input r1 r2 | none => false
+    let si := if obs == mr then sm else
+      match parseTwo obs with
+      | some (r1, r2) => statementTwo input r1 r2
+      | none => false
+    let shared := match mo with
+      | some (r1, r2, _) => (r1.filter fun r => r2.any fun q => q.ptr == r.ptr).length
+      | none => 0
+    { model := mr, agree := obs == mr, stmtModel := sm, stmtImpl := si,
+      tags := ["two-lexers", if shared > 0 then "two-lexers-share-tokens" else "two-lexers-nothing-shared"],
+      nontrivial := shared > 0 }
+
 def runCase (inp obs : String) : CaseResult :=
+  if inp.startsWith "2;" then runCaseTwo (inp.drop 2).toString obs else
   if inp = "T;-" then
     let m := tablesObs
     { model := m, agree := m == obs, stmtModel := true, stmtImpl := true, tags := ["tables"], nontrivial := true }
